@@ -57,13 +57,13 @@ type Step struct {
 	Kind    string // alive | pp | sleep | other
 	Subj    int
 	Addr    int
-	Port    int  `json:",omitempty"` // 0 = 7946
-	IncUp   int  // incarnation = held + IncUp - 1 (0 → held-1)
-	Src     int  `json:",omitempty"`
+	Port    int    `json:",omitempty"` // 0 = 7946
+	IncUp   int    // incarnation = held + IncUp - 1 (0 → held-1)
+	Src     int    `json:",omitempty"`
 	Carrier string `json:",omitempty"`
-	Join    bool `json:",omitempty"`
-	State   int  `json:",omitempty"` // pp row state
-	SleepMs int  `json:",omitempty"`
+	Join    bool   `json:",omitempty"`
+	State   int    `json:",omitempty"` // pp row state
+	SleepMs int    `json:",omitempty"`
 	Other   string `json:",omitempty"` // suspect | dead | left : claims without an address, to move states
 }
 
